@@ -179,8 +179,17 @@ def _assert_addable(bundle: "Bundle", val: "BundleAttr", name: Any) -> None:
         raise RuntimeError(msg)
     if bundle._elaborated:
         raise RuntimeError(f"Cannot add {val} to {bundle} after elaboration.")
-    if val.name != name and bundle.namespace.get(val.name, None) is val:
-        msg = f"Cannot add {val} to {bundle} as `{name}`: it already is its attribute `{val.name}`"
+    # One object has one name. (Looked up by identity: `val.name` is the name its *last* holder gave it.)
+    for key, attr in bundle.namespace.items():
+        if attr is val and key != name:
+            msg = f"Cannot add {val} to {bundle} as `{name}`: it already is its attribute `{key}`"
+            raise RuntimeError(msg)
+    # And one holder. Adding it here re-names it, which neither a `Module` nor another `Bundle` holding it would notice.
+    from .module import _holder_of
+
+    held = _holder_of(val)
+    if held is not None and held[0] is not bundle:
+        msg = f"Cannot add {val} to {bundle}: it is attribute `{held[1]}` of {held[0]}. (Add a copy instead.)"
         raise RuntimeError(msg)
 
 
